@@ -49,7 +49,7 @@ ASSUMPTIONS = [
     "only - the server's queues, priority flags, parked/scheduled loop and h2 windows read defensively",
     "transport back-pressure on the H2Connection (pauseProducing from the TCP transport) and RST_STREAM are outside the statement and not in the alphabet",
 ]
-MIN = {"quick": {"states": 160000, "nontrivial": 130000, "outcomes": 10, "closures": 280000},
+MIN = {"quick": {"states": 155000, "nontrivial": 125000, "outcomes": 10, "closures": 380000},
        "thorough": {"states": 1300000, "nontrivial": 1000000, "outcomes": 10, "closures": 2300000}}
 
 LEVEL_TEXT = ("bounded model checking: every history up to the stated depth over the stated alphabet and configurations is executed on the real "
